@@ -269,7 +269,9 @@ Definition spec_inst (cdna3 : bool) (d : desc) : inst :=
                            else spec_vgpr vsrc1 0) |>
         <| i_dst := Some (spec_vgpr vdst 0) |>
   | DVopc r s0 vsrc1 =>
-      b <| i_src0 := Some (spec_operand s0 0) |> <| i_src1 := Some (spec_vgpr vsrc1 0) |>
+      (* 64-bit compares (v_cmp_*_f64/_i64/_u64): both operands are register pairs *)
+      b <| i_src0 := Some (spec_operand s0 (w64 (r_src0w r))) |>
+        <| i_src1 := Some (spec_vgpr vsrc1 (w64 (r_src1w r))) |>
   | DVop3a r vdst abs opsel clamp s0 s1 s2 omod neg =>
       let op := r_opcode r in
       let b := b <| i_dst := Some (if op <=? 255 then spec_operand (PS vdst) (w64 (r_dstw r))
